@@ -13,7 +13,10 @@ EXTENDS Integers, Sequences, FiniteSets, TLC, Json, SequencesExt
 CONSTANTS Builtins,      \* names of the builtins under test (taken from the real registry)
           ArgShapes,     \* abstract argument shapes, rendered by the harness
           StdinShapes,   \* abstract stdin shapes; "none" = the command is not a method
-          TwoArgBuiltins \* builtins that are also tried with every pair of shapes
+          TwoArgBuiltins, \* builtins that are also tried with every pair of shapes
+          IndexCmds,     \* the index / element builtins
+          IndexShapes,   \* argument shapes that are (mis-shapen) row, column and key selectors
+          TableStdin     \* stdin shapes that are tables / lists of records
 
 Outcomes == {"ok", "error"}                          \* the only outcomes the property allows
 Forbidden == {"panic", "crashed", "hung"}
@@ -23,7 +26,12 @@ Acceptable(o) == o.class \in Outcomes /\ (o.class = "error" => o.exit # 0)
 One == {[cmd |-> b, args |-> <<a>>, stdin |-> s] : b \in Builtins, a \in ArgShapes, s \in StdinShapes}
 Zero == {[cmd |-> b, args |-> <<>>, stdin |-> s] : b \in Builtins, s \in StdinShapes}
 Two == {[cmd |-> b, args |-> <<a1, a2>>, stdin |-> s] : b \in TwoArgBuiltins, a1 \in ArgShapes, a2 \in ArgShapes, s \in {"none", "json-array"}}
-Cases == Zero \cup One \cup Two
+\* index and element lookups on tabular data: every selector alone and every ordered pair of selectors
+\* (a pair decides between the streaming and the buffered path of the table indexer)
+Idx == {[cmd |-> b, args |-> <<a>>, stdin |-> s] : b \in IndexCmds, a \in IndexShapes, s \in TableStdin}
+       \cup {[cmd |-> b, args |-> <<a1, a2>>, stdin |-> s] : b \in IndexCmds, a1 \in IndexShapes, a2 \in IndexShapes, s \in TableStdin}
+Fam(S, f) == {[cmd |-> c.cmd, args |-> c.args, stdin |-> c.stdin, fam |-> f] : c \in S}
+Cases == Fam(Zero \cup One \cup Two, "table") \cup Fam(Idx, "index")
 ASSUME Outcomes \cap Forbidden = {}
 ASSUME ndJsonSerialize("cases.ndjson", SetToSeq(Cases))
 =============================================================================
